@@ -74,7 +74,8 @@ def build_case(rng, everything=False, flat=False):
             t.files["top.cmake"] = cmake_text("top.cmake")
         c.tree = t
     else:
-        c.tree = gen_tree(rng, max_depth=rng.choice([1, 2, 3, 4]), case_twins=rng.random() < 0.3, index_module=rng.random() < 0.08, symlinks=rng.random() < 0.2)
+        c.tree = gen_tree(rng, max_depth=rng.choice([1, 2, 3, 4]), case_twins=rng.random() < 0.3, index_module=rng.random() < 0.08, symlinks=rng.random() < 0.2,
+                          dirlinks=rng.random() < 0.2, follow=rng.random() < 0.5)
     c.recursive = rng.random() < 0.8
     c.auto = rng.random() < 0.6
     c.everything = everything
@@ -165,6 +166,11 @@ def run_case(c, rng, sb, order, res, patterns=None, allow_extra_input=True, pref
         sfile.setdefault("input", {})["exclude_filters"] = src["sfile"]
     if not c.auto:
         sfile.setdefault("input", {})["auto_exclude_directories_without_cmake"] = False
+    if c.tree.dirlinks:
+        res.count("runs_with_directory_symlinks")
+        res.see("directory_symlinks", "followed" if c.tree.follow else "not followed")
+        if c.tree.follow or rng.random() < 0.3:
+            sfile.setdefault("input", {})["follow_symlinks"] = c.tree.follow
     if prefix is not None:
         if prefix_src == "cli":
             argv += ["-p", prefix]
